@@ -236,3 +236,29 @@ def _make_params(prop: str):
 for _i in range(1, 21):
     _p = f"C{_i:02d}"
     rule(_p)(_make_params(_p))
+
+
+# ------------------------------------------------------------------------------------------------ rules shared between properties
+
+# A change made to break one property often does so through a mechanism whose home is a neighbouring property; the home rule is then
+# registered for both and reports under its home id.  property -> [(module, rule function)]
+SHARED = {
+    "C01": [("c12", "r12_1b_hebrew_compare"), ("c02", "r02_5_leap_decisions"), ("c13", "r13_1_year_cache_keys"), ("c02", "r02_7_hebrew_molad"), ("c02", "r02_8_registry_round_trip")],
+    "C02": [("c13", "r13_1_year_cache_keys"), ("c01", "r01_5_per_year_consistency")],
+    "C03": [("c11", "r11_4_sign_discipline")],
+    "C04": [("c02", "r02_5_leap_decisions")],
+    "C06": [("c04", "r04_8_queries_are_used"), ("c02", "r02_5_leap_decisions")],
+    "C07": [("c08", "r08_7_embedded_fields")],
+}
+
+
+def register_shared(prop: str) -> None:
+    import importlib
+
+    from ..core import REGISTRY
+
+    for mod, fn in SHARED.get(prop, []):
+        m = importlib.import_module(f"sa.rules.{mod}")
+        f = getattr(m, fn)
+        if f not in REGISTRY.get(prop, []):
+            rule(prop)(f)
